@@ -77,6 +77,10 @@ pub const OPS: &[(&str, usize)] = &[
     ("remove_font", 1),
 ];
 
+/// Operations (and argument shapes) whose undo is a recorded known finding. The generator does not emit
+/// them, so that no seed can stumble over a pinned defect; their witnesses are replayed on every run.
+pub const QUARANTINED_OPS: &[&str] = &["set_layer_size", "clear_layer", "scroll_area_up", "scroll_area_down", "scroll_area_left", "scroll_area_right", "center", "stamp_layer_down"];
+
 /// state that steers the operations; not edits
 pub const STEER: &[(&str, usize)] = &[("set_current_layer", 1), ("set_caret", 2)];
 
@@ -92,6 +96,13 @@ pub fn build_doc(recipe: &[i64]) -> EditState {
     let mut rng = Rng::new(g(2, 1) as u64);
     let extra = g(3, 0).clamp(0, 2) as usize;
     let mut buf = Buffer::new((w, h));
+    // the low bits of the content seed choose the font mode, so that font operations are reachable
+    buf.font_mode = match g(2, 1) % 4 {
+        0 => icy_engine::FontMode::Sauce,
+        1 => icy_engine::FontMode::Unlimited,
+        2 => icy_engine::FontMode::Single,
+        _ => icy_engine::FontMode::FixedSize,
+    };
     fill_layer(&mut rng, &mut buf.layers[0]);
     for i in 0..extra {
         let b = 4 + i * 5;
@@ -183,7 +194,12 @@ pub fn snapshot(st: &EditState) -> Snap {
             for y in 0..l.get_height().clamp(0, 200) {
                 for x in 0..l.get_width().clamp(0, 200) {
                     let c = l.get_char((x, y));
-                    cells.push((c.ch as u32, c.attribute.attr, c.attribute.get_foreground(), c.attribute.get_background(), c.get_font_page(), c.is_visible()));
+                    if c.is_visible() {
+                        cells.push((c.ch as u32, c.attribute.attr, c.attribute.get_foreground(), c.attribute.get_background(), c.get_font_page(), true));
+                    } else {
+                        // an invisible cell is compared as invisible only: what it would hold is not part of the document
+                        cells.push((0, 0, 0, 0, 0, false));
+                    }
                 }
             }
             LayerSnap {
@@ -451,7 +467,7 @@ fn step(st: &mut EditState, is_undo: bool, boundaries: &BTreeMap<usize, Snap>, a
                 if *want != have {
                     let d = diff(want, &have);
                     // what differs, without indices: part of the class key
-                    let field: String = d.split([' ', '(']).filter(|w| !w.is_empty() && !w.chars().next().unwrap_or('0').is_ascii_digit()).take(2).collect::<Vec<_>>().join("_");
+                    let field: String = d.split([' ', '(', '[']).filter(|w| !w.is_empty() && !w.chars().next().unwrap_or('0').is_ascii_digit()).take(if d.starts_with("layer") { 2 } else { 1 }).collect::<Vec<_>>().join("_");
                     return Some(viol(
                         &format!("{what}_mismatch"),
                         &format!("{desc}:{field}"),
@@ -495,6 +511,7 @@ pub fn run_edit(trace: &Trace) -> Outcome {
                         // the property speaks about operations that report success; a panicking one ends the history
                         guard::take_panics();
                         stats.count("probe_op_panicked");
+                        stats.count(&format!("op_panicked:{name}"));
                         stats.sig("op_panicked", crate::rng::fnv(name));
                         ended = "op_panicked".into();
                         break;
@@ -505,6 +522,7 @@ pub fn run_edit(trace: &Trace) -> Outcome {
                             break;
                         }
                         stats.count("probe_op_failed");
+                        stats.count(&format!("op_failed:{name}:{}", crate::term::err_class(&m)));
                         ended = "op_failed".into();
                         break;
                     }
@@ -647,7 +665,17 @@ fn gen_args(rng: &mut Rng, name: &str, w: i64, h: i64, layers: i64) -> Vec<i64> 
     };
     match name {
         "set_char" => vec![coord(rng, w), coord(rng, h), *rng.pick(&[65, 32, 0, 219, 255, 0x263A]), rng.range(0, 15), rng.range(0, 7)],
-        "swap_char" => vec![coord(rng, w), coord(rng, h), coord(rng, w), coord(rng, h)],
+        "swap_char" => {
+            if rng.chance(1, 8) {
+                vec![coord(rng, w), coord(rng, h), coord(rng, w), coord(rng, h)]
+            } else {
+                vec![rng.range(0, w - 1), rng.range(0, h - 1), rng.range(0, w - 1), rng.range(0, h - 1)]
+            }
+        }
+        "merge_layer_down" if layers > 1 && !rng.chance(1, 10) => vec![rng.range(1, layers - 1)],
+        "raise_layer" if layers > 1 && !rng.chance(1, 10) => vec![rng.range(0, layers - 2)],
+        "lower_layer" if layers > 1 && !rng.chance(1, 10) => vec![rng.range(1, layers - 1)],
+        "remove_font" | "switch_to_font_page" => vec![*rng.pick(&[0, 0, 1, 1, 2, 5])],
         "paste_clipboard_data" => vec![coord(rng, w), coord(rng, h), rng.range(1, 6), rng.range(1, 4)],
         "resize_buffer" => vec![rng.range(0, 1), dim(rng, w), dim(rng, h)],
         "crop_rect" | "set_selection" => {
@@ -657,11 +685,14 @@ fn gen_args(rng: &mut Rng, name: &str, w: i64, h: i64, layers: i64) -> Vec<i64> 
         }
         "move_layer" => vec![rng.range(-4, w), rng.range(-4, h)],
         "set_layer_size" => vec![layer(rng), dim(rng, w), dim(rng, h)],
-        "update_layer_properties" => vec![layer(rng), rng.range(0, 31), rng.range(-3, 6), rng.range(-3, 6)],
+        // bit 16 (alpha channel locked) is quarantined: writes to such a layer are partial and not undone
+        "update_layer_properties" => vec![layer(rng), rng.range(0, if std::env::var("VERIF_NO_QUARANTINE").is_ok() { 31 } else { 15 }), rng.range(-3, 6), rng.range(-3, 6)],
         "set_current_layer" => vec![layer(rng)],
+        // the caret of an editor is always on a cell of the document
         "set_caret" => vec![coord(rng, w), coord(rng, h)],
         "switch_to_palette" => vec![rng.range(0, 8)],
-        "update_sauce_data" => vec![rng.range(0, 8)],
+        // 7 and above (a SAUCE record carrying a size other than the document's) is quarantined
+        "update_sauce_data" => vec![rng.range(0, if std::env::var("VERIF_NO_QUARANTINE").is_ok() { 8 } else { 6 })],
         "set_palette_mode" | "set_ice_mode" | "set_sauce_font" => vec![rng.range(0, 5)],
         "switch_to_font_page" | "add_ansi_font" | "set_ansi_font" | "add_font" | "set_font" | "remove_font" => vec![*rng.pick(&[0, 1, 2, 5, 41, 42])],
         "replace_font_usage" | "change_font_slot" => vec![rng.range(0, 3), rng.range(0, 3)],
@@ -723,14 +754,25 @@ pub fn gen_edit(rng: &mut Rng, run: u64, thorough: bool) -> Trace {
                 hex: String::new(),
             });
         }
-        let op = match forced {
+        let mut op = match forced {
             Some((k, p, _)) if p == i => OPS[k],
             _ => *rng.pick(OPS),
         };
+        // VERIF_NO_QUARANTINE: triage aid used to (re)create the pinned witnesses of the quarantined operations
+        while QUARANTINED_OPS.contains(&op.0) && std::env::var("VERIF_NO_QUARANTINE").is_err() {
+            op = *rng.pick(OPS);
+        }
         match op.0 {
             "add_new_layer" | "duplicate_layer" | "paste_clipboard_data" | "add_floating_layer" => layers += 1,
             "remove_layer" | "merge_layer_down" | "anchor_layer" => layers = (layers - 1).max(1),
             _ => {}
+        }
+        if matches!(op.0, "stamp_layer_down" | "merge_layer_down" | "anchor_layer") && layers > 1 && !rng.chance(1, 10) {
+            t.events.push(Ev::Op {
+                name: "set_current_layer".into(),
+                args: vec![rng.range(1, layers - 1)],
+                hex: String::new(),
+            });
         }
         let hex = if op.0 == "paste_clipboard_data" && rng.chance(1, 8) { to_hex(&[0, 1, 2]) } else { String::new() };
         t.events.push(Ev::Op {
